@@ -81,12 +81,12 @@ TReset ==
     /\ Line.a = "Reset"
     /\ ~ ENABLED Next
     /\ l' = l + 1
-    /\ owner' = IF RFinal # {} THEN "null" ELSE "fut"
-    /\ slot' = "null"
+    /\ owner' = IF RFinal # {} \/ PreResolved # "none" THEN "null" ELSE "fut"
+    /\ slot' = IF PreResolved # "none" THEN "ready" ELSE "null"
     /\ nxt' = [w \in Waiters |-> "null"]
-    /\ tag' = IF RFinal # {} THEN "val" ELSE "none"
-    /\ payload' = IF RFinal # {} THEN CHOOSE r \in RFinal : TRUE ELSE "none"
-    /\ writes' = IF RFinal # {} THEN 1 ELSE 0
+    /\ tag' = IF RFinal # {} THEN "val" ELSE IF PreResolved \in {"val", "exc"} THEN PreResolved ELSE "none"
+    /\ payload' = IF RFinal # {} THEN CHOOSE r \in RFinal : TRUE ELSE IF PreResolved \in {"val", "exc"} THEN "pre" ELSE "none"
+    /\ writes' = IF RFinal # {} \/ PreResolved \in {"val", "exc"} THEN 1 ELSE 0
     /\ rpc' = [r \in Resolvers |-> IF r \in RFinal THEN "swap" ELSE IF r \in RDtor THEN "dtor"
                                   ELSE IF r \in RMasg THEN "mclaim_own" ELSE "claim"]
     /\ rres' = [r \in Resolvers |-> "none"]
